@@ -166,7 +166,7 @@ fn judge_iv(ctx: &Ctx, acc: &mut Acc, name: &str, case: &dyn Fn() -> Case, w: u3
             if width {
                 acc.stat("result_hint_width_differs", 1);
             }
-            acc.outcome(&(name, view.s, view.e, view.stride));
+            acc.outcome(&(name, view.bits_s, view.stride, view.len()));
             Some(view)
         }
     }
@@ -630,6 +630,39 @@ fn main() {
             |acc| acc.flush(ctx),
         );
     }
+    // ------------------------------------------------------------------ thorough: EVERY 1-byte interval
+    if thorough {
+        let all1 = all1_bare();
+        ctx.set("all_1_byte_intervals", json!(all1.len()));
+        let partners: Vec<Elem> = i1_bare(false).into_iter().enumerate().map(|(idx, b)| elem1(b, idx, 0, &GRID_QUICK)).collect();
+        let (all1, partners) = (&all1, &partners);
+        par_fold(
+            all1.len() as u64,
+            16,
+            Acc::default,
+            |acc, i| {
+                let bare = all1[i as usize];
+                // bounds: every hint configuration x every bound x 5 operations
+                for iv in with_hints(1, bare, i as usize, &GRID) {
+                    let (dom, gamma) = (build(&iv), iv.gamma1());
+                    for cond in CONDS {
+                        for c in 0..=255u8 {
+                            acc.states += 1;
+                            bound1(ctx, acc, ct, cond, &iv, &dom, &gamma, c);
+                        }
+                    }
+                }
+                // intersect with every interval of the quick I1, both orders, one hint configuration
+                let e = elem1(bare, i as usize, i as usize, &GRID);
+                for p in partners.iter() {
+                    acc.states += 2;
+                    intersect1(ctx, acc, &e.iv, &e.dom, &e.gamma, &p.iv, &p.dom, &p.gamma);
+                    intersect1(ctx, acc, &p.iv, &p.dom, &p.gamma, &e.iv, &e.dom, &e.gamma);
+                }
+            },
+            |acc| acc.flush(ctx),
+        );
+    }
     // ------------------------------------------------------------------ part 3: widths 2, 4, 8
     let mut wide_counts = serde_json::Map::new();
     for w in [2u32, 4, 8] {
@@ -723,6 +756,7 @@ fn main() {
             "part2": "1 byte: intersect over all pairs of I1 x all hint configuration pairs; S = bitwise intersection",
             "part3": "widths 2,4,8: boundary-point intervals x all hint configurations x bounds (boundary points and the neighbourhood of start, end, start+stride, end-stride, middle) x 5 operations; intersect over all pairs (one hint configuration each); members = all if <= 256, else the member alphabet incl. the neighbours of the bound and of 0/-1/min/max (emptiness of S exact, S ⊆ γ(R) over the alphabet only)",
             "part4": "DataDomain<IntervalDomain>, 1 byte: {no absolute value, 6 intervals} x {no, one or two relative targets with offsets from 4 intervals} x top flag; 5 operations x every bound; intersect over all pairs",
+            "thorough_only": "EVERY well-formed 1-byte interval (170 700: all starts, all strides, all lengths) x hint configurations x every bound x 5 operations; intersect of each of them with every interval of the quick I1, both orders",
             "grid": if thorough { GRID.to_vec() } else { GRID_QUICK.to_vec() },
             "strides": STRIDES,
         }),
